@@ -19,6 +19,7 @@ RULE = ("One evaluation = one seeded execution of two real clients + real "
         "reconnect by a client. Distinct: distinct event-log digests among "
         "non-trivial runs.")
 RULE += (" Three of eight configurations add a planned uplink loss (server stops reading one client's connection, then the connection dies).")
+RULE += (' Two further configurations apply the planned uplink loss twice in a row to the same client (what was re-submitted on the replacement connection is lost again).')
 LEVEL_TEXT = ("Seeded exploration of drop points in a composed two-client run; "
               "after the last fault connectivity is restored and the run must "
               "reach: both sides have code/key/verifier/versions, every sent "
@@ -40,7 +41,9 @@ def configs(tier):
              "uplink_loss": i in (2, 5, 7),
              # the server replays / forwards stored messages in any order
              "reorder_heavy": i in (3, 6),
-             "max_msgs": 4 if tier == "quick" else 8} for i in range(8)]
+             "max_msgs": 4 if tier == "quick" else 8} for i in range(8)] + \
+        [{"spake": "stub", "uplink_loss": "double", "faults_few": k == 1,
+          "max_msgs": 4 if tier == "quick" else 8} for k in range(2)]
 
 
 def run_one(seed, tape, opts):
@@ -48,7 +51,8 @@ def run_one(seed, tape, opts):
     sim = w.sim
     for c, peer in ((a, "B"), (b, "A")):
         c.script += [("wait_all_delivered", peer), ("close",)]
-    ca.pick_faults(tape, w, ca.CONN_FAULTS, 6)
+    ca.pick_faults(tape, w, ca.CONN_FAULTS, 2 if opts.get("faults_few")
+                   else 6)
     prefix = ca.PrefixOracle(a, b)
     order = ca.EventOrderOracle([a, b], versions_first=not opts.get(
         "reorder_heavy"))
@@ -60,8 +64,20 @@ def run_one(seed, tape, opts):
         # it keeps receiving the peer's), the connection dies at a later
         # drawn event, and the lost messages must be re-submitted
         t1 = tape.choose(200, "ul_t1")
-        planned = w.plan_uplink_loss(tape.pick((a, b), "ul_victim"), t1,
-                                     t1 + 1 + tape.choose(200, "ul_t2"))
+        victim = tape.pick((a, b), "ul_victim")
+        t2 = t1 + 1 + tape.choose(200, "ul_t2")
+        planned = w.plan_uplink_loss(victim, t1, t2)
+        if opts.get("uplink_loss") == "double":
+            # ... and the same happens again to the replacement connection,
+            # shortly after it opened (what was re-submitted is lost again)
+            t3 = t2 + tape.choose(40, "ul_t3")
+            second = w.plan_uplink_loss(victim, t3,
+                                        t3 + 1 + tape.choose(80, "ul_t4"))
+            first = planned
+
+            def planned():
+                first()
+                second()
 
     def oracle():
         if planned is not None:
